@@ -795,7 +795,7 @@ void list_output_riscv(
     {
       fprintf(asm_context->list, "0x%08x: 0x%04x     %s\n",
         start,
-        opcode,
+        opcode & 0xffff,
         instruction);
     }
       else
